@@ -1,4 +1,4 @@
-import EpModel.Model.Checksum
+import EpModel.Model.ChecksumFast
 import EpModel.Model.Codec.NetIpv4
 import EpModel.Model.Codec.NetIpv6
 import EpModel.Model.Codec.NetIpv6Frag
